@@ -1374,6 +1374,25 @@ class Executor:
                 ast.fix_missing_locations(fd)
                 clo = Closure(fd, env, env.module, f'<{e.func.id}>@{getattr(e, "lineno", 0)}')
                 return self.call_closure(clo, [], {}, e)
+        # next((E for T in I if C), D): the loop `for T in I: if C: return E` followed by `return D` (short-circuit: later conditions are not evaluated)
+        if isinstance(e.func, ast.Name) and e.func.id == 'next' and len(e.args) in (1, 2) and not e.keywords and isinstance(e.args[0], ast.GeneratorExp) \
+                and len(e.args[0].generators) == 1 and not e.args[0].generators[0].is_async:
+            try:
+                shadowed = env.lookup('next') is not None
+            except KeyError:
+                shadowed = False
+            if not shadowed:
+                g = e.args[0].generators[0]
+                inner = ast.Return(value=e.args[0].elt)
+                for c in reversed(g.ifs):
+                    inner = ast.If(test=c, body=[inner], orelse=[])
+                tail = ast.Return(value=e.args[1]) if len(e.args) == 2 else ast.Raise(exc=ast.Call(func=ast.Name(id='StopIteration', ctx=ast.Load()), args=[], keywords=[]), cause=None)
+                fd = ast.FunctionDef(name='<next>', args=ast.arguments(posonlyargs=[], args=[], kwonlyargs=[], kw_defaults=[], defaults=[]),
+                                     body=[ast.For(target=g.target, iter=g.iter, body=[inner], orelse=[]), tail], decorator_list=[])
+                ast.copy_location(fd, e)
+                ast.fix_missing_locations(fd)
+                clo = Closure(fd, env, env.module, f'<next>@{getattr(e, "lineno", 0)}')
+                return self.call_closure(clo, [], {}, e)
         f = self.eval(e.func, env)
         args = []
         for a in e.args:
